@@ -1,5 +1,6 @@
 import MwVerif.Lemmas.Tree.Replace
 import MwVerif.Lemmas.Passes.FixParagraphs
+import MwVerif.Lemmas.Passes.FixNestingWords
 /-!
 # C07 — cleaning is lossless for ordinary content (primitive level)
 
@@ -28,5 +29,13 @@ theorem c07_remove_textless_lossless (x : Nat) (t : T) (h : ∀ c : T, c.id = x 
 /-- **C07 (`fix_paragraphs` is lossless).**  The pass keeps every word, in reading order. -/
 theorem c07_fix_paragraphs_lossless (n : Nat) (t : T) : (fixParagraphs n t).words = t.words :=
   (fixParagraphs_order n t).2
+
+/-- **C07 (`fix_nesting` is lossless).**  On trees whose inner nodes carry no text of their own (text lives
+in leaves), the pass keeps every word, in reading order, for any class table and any number of rounds:
+the nodes on the path are copied, the text is not. -/
+theorem c07_fix_nesting_lossless (c : NCfg) (n : Nat) (t : T) (h : t.innerWordless = true) :
+    (fixNesting c n t).words = t.words := (fixNesting_words c n t h).1
+
+example : (T.node 0 0 [] [.node 1 5 [] [.node 2 7 ["w"] []]]).innerWordless = true := by rfl
 
 end MwVerif.Tree
